@@ -133,3 +133,26 @@ Theorem C20_ratectl_qmax_zero_honoured_or_refuted :
   ratectl_qmax 0 = 0 \/ (ratectl_qmax 0 = 100 /\ ~ (forall v, 0 <= v <= 100 -> ratectl_qmax v = v)).
 Proof. exact ratectl_qmax_zero. Qed.
 Print Assumptions C20_ratectl_qmax_zero_honoured_or_refuted.
+
+(** QMin / QMax are documented as the minimum / maximum quantizer value.  On the faithful model
+    the quality handed to the lossy codec is NOT always inside [QMin, QMax]: without TargetSize /
+    TargetPSNR the range is ignored (witness: Quality 90, QMin = QMax = 30 -> 90).
+    Known finding qrange-ignored:none. *)
+Theorem C20_quality_in_range_refuted :
+  exists o c a e s m, validate o = false /\ effective (Some o) 16 16 false = Ok (ELossy c a e s m) /\
+                      cTargetSize c = 0 /\ cQMax c < cQuality c.
+Proof. exact quality_in_range_refuted. Qed.
+Print Assumptions C20_quality_in_range_refuted.
+
+(** With a target, the statement is decided by the regenerated propagation block: either it
+    clamps Quality into [QMin, QMax] (then proved for every option value), or it does not (pinned
+    tree: the clamp lives only inside the rate-control loop) and the statement is refuted by
+    Quality 90, QMin = QMax = 30, TargetSize 600.  Known finding qrange-inexact:{size,psnr}. *)
+Theorem C20_quality_in_range_when_target_or_refuted :
+  (forall oo w h ha c a e s m, effective oo w h ha = Ok (ELossy c a e s m) ->
+     (cTargetSize c >? 0) || fl_gt (cTargetPSNR c) 0 = true -> cQMin c <= cQuality c <= cQMax c)
+  \/ (F.quality_clamp_rule = [] /\
+      ~ (forall oo w h ha c a e s m, effective oo w h ha = Ok (ELossy c a e s m) ->
+           (cTargetSize c >? 0) || fl_gt (cTargetPSNR c) 0 = true -> cQMin c <= cQuality c <= cQMax c)).
+Proof. exact quality_in_range_when_target_or_refuted. Qed.
+Print Assumptions C20_quality_in_range_when_target_or_refuted.
